@@ -21,10 +21,19 @@ type zzStream struct {
 	ctx  context.Context
 	sent []*proto.BeaconPacket
 	fail int // fail the k-th send (1-based), 0 = never
+	// a consumer that stopped reading: while gate is set, Send returns only once it is closed (or the stream ends)
+	gate chan struct{}
 }
 
 func (s *zzStream) Context() context.Context { return s.ctx }
 func (s *zzStream) Send(p *proto.BeaconPacket) error {
+	if s.gate != nil {
+		select {
+		case <-s.gate:
+		case <-s.ctx.Done():
+			return s.ctx.Err()
+		}
+	}
 	if s.fail > 0 && len(s.sent)+1 == s.fail {
 		return errors.New("zz: stream send failed")
 	}
@@ -256,8 +265,36 @@ func ZZ_C11_reconnect() {
 		doneA = true
 	}()
 	zz.Quiesce()
-	order := zz.Choose("old_connection", 3)
+	order := zz.Choose("old_connection", 4)
 	hook := &zzHookStore{CallbackStore: cbs}
+	if order == 3 {
+		// the old stream is STUCK in a send with a further beacon queued behind it when the client reconnects;
+		// it comes loose only after the new stream has caught up. What was queued for the old stream is the old
+		// stream's business: the new one still gets every round once, in order.
+		stA.gate = make(chan struct{})
+		for r := uint64(3); r < 5; r++ {
+			_ = cbs.Put(bg, mk(r))
+			zz.Quiesce()
+		}
+		ctxB, cancelB := context.WithCancel(bg)
+		stB := &zzStream{ctx: ctxB}
+		go func() { _ = SyncChain(zzfake.Logger(), cbs, req, stB) }()
+		zz.Quiesce()
+		_ = cbs.Put(bg, mk(5))
+		zz.Quiesce()
+		close(stA.gate)
+		zz.Quiesce()
+		_ = cbs.Put(bg, mk(6))
+		zz.Quiesce()
+		zz.Assert("new_stream_delivers_every_stored_round", len(stB.sent) == 6)
+		for i, p := range stB.sent {
+			zz.Assert("new_stream_in_order_from_its_start", p.Round == uint64(1+i))
+		}
+		cancelA()
+		cancelB()
+		zz.Quiesce()
+		return
+	}
 	switch order {
 	case 0: // closed before the client reconnects
 		cancelA()
